@@ -218,10 +218,12 @@ class DataSaveable:
 
         """
         self.set_data_writable()
+        # a file holding an axis and data is a matrix even if it has one row
+        ndmin = 2 if with_axis is not None else 0
         try:        
-            _data = numpy.loadtxt(filename)
+            _data = numpy.loadtxt(filename, ndmin=ndmin)
         except ValueError:
-            _data = numpy.loadtxt(filename, dtype=complex)
+            _data = numpy.loadtxt(filename, dtype=complex, ndmin=ndmin)
         
         self.data = self._extract_data_with_axis(_data, with_axis)
         self.set_data_protected()            
